@@ -41,9 +41,11 @@ ASSUMPTIONS = ['stored samples are labels (small integers exactly representable 
                'dump periods and offsets are dyadic rationals, so every comparison is exact equality',
                'the singleton-dimension convention of the answer (keepdims, v1 always 3-d, dropped axes) is not '
                'compared: answers are brought to the canonical 3-axis shape',
-               'second-stage indices are in range; an indexer that raises on a form it does not support is recorded as '
-               'unanswered (C04 / C05 own the indexer classes), except for plain full / unit-slice / in-range integer '
-               'reads of a non-empty selection, which must be answered',
+               'second-stage indices are in range and of a form the indexer class supports (LazyIndexer: no negative '
+               'steps, strictly increasing lists; C04 / C05 own the indexer classes); a read that selects at least one '
+               'element must be answered; a read that selects nothing may raise (v1: ConcatenatedLazyIndexer on empty '
+               'heads / tails = open C05 findings F10 / F10b, zero products cannot be stacked) and is recorded as '
+               'unanswered: the model answers with an empty array there',
                'select() calls are those of the C02 generator (single spectral window / subarray); a call that raises '
                'other than the strict TypeError ends the history',
                'v4: no applycal, no lost chunks (C13 / C06 own those), weights without power scaling']
@@ -122,6 +124,7 @@ def gen_spec(rng, fmt):
         spec['chunks'] = rng.choice([None, (1, 2, 5), (2, 1, 12), (3, 3, 4)])
         spec['bls_seed'] = rng.choice([None, rng.randrange(1000)])
         spec['nants'] = 2
+        spec['rdb'] = rng.random() < 0.5          # through katdal.open of an .rdb file next to the chunk store
     return spec
 
 
@@ -177,15 +180,29 @@ class Fixture:
                 chunks = None if spec['chunks'] is None else dict(
                     correlator_data=spec['chunks'], flags=spec['chunks'], weights=spec['chunks'])
                 t0 = 1600000000.0 + 123.0
+                def hook(ts, cbid, stream):
+                    ts['capture_block_id'] = cbid
+                    ts['stream_name'] = stream
                 self.x = v4.build_v4(T=T, F=F, ants=ants, int_time=dt, tmp=os.path.join(self.tmp, 'v4'), bls_ordering=bls,
+                                     bandwidth=208984.375 * F,
                                      arrays=dict(correlator_data=self.st['vis'], flags=self.st['flags'],
                                                  weights=self.st['w_lo'], weights_channel=self.st['w_hi']),
                                      chunks=chunks, acts=tuple(spec['acts']), targets=tuple(spec['targets']),
                                      labels=tuple(spec['labels']), open_kwargs=dict(time_offset=off),
                                      extra_sensors=[('m000_pos_actual_scan_azim',
-                                                     [(t0 - 20.0, 10.0), (t0 + dt * T + 20.0, 20.0)])])
-                self.d = self.x.d
-                self.stored_ts = [float(t) for t in self.x.source.timestamps]     # what the data source serves
+                                                     [(t0 - 20.0, 10.0), (t0 + dt * T + 20.0, 20.0)])],
+                                     telstate_hook=hook, construct=not spec.get('rdb'))
+                if spec.get('rdb'):
+                    from katsdptelstate.rdb_writer import RDBWriter
+                    rdir = os.path.join(self.tmp, 'v4', self.x.cbid)
+                    os.makedirs(rdir, exist_ok=True)
+                    path = os.path.join(rdir, '%s_%s.rdb' % (self.x.cbid, self.x.stream))
+                    with RDBWriter(path) as w:
+                        w.save(self.x.telstate)
+                    self.d = katdal.open(path, time_offset=off)
+                else:
+                    self.d = self.x.d
+                self.stored_ts = [float(t) for t in self.d.source.timestamps]     # what the data source serves
                 ant0 = 'm000'
             self.file = getattr(self.d, 'file', None)
             d = self.d
@@ -230,6 +247,9 @@ def wire_selarg(v):
     return [1, [codes(a) for a in v]]
 
 
+SKIPPED = []
+
+
 def build_fixture(rng, fmt, tries=12):
     """A fixture of the given format from rng; specs outside C02's vocabulary / frequency grid are skipped."""
     last = None
@@ -239,6 +259,7 @@ def build_fixture(rng, fmt, tries=12):
             return Fixture(spec)
         except AssertionError as e:
             last = e
+            SKIPPED.append((fmt, repr(e)[:80]))
     raise RuntimeError('no usable %s observation model in %d tries: %r' % (fmt, tries, last))
 
 
@@ -534,12 +555,14 @@ def compare_history(ctx, fx, ops, log, mouts, hid, note=True):
             continue
         shape, labels = s_ans[1], s_ans[2]
         if e['arr'] is None:
-            if e['basic']:
+            if len(labels) > 0:
                 ctx.disagree(sig0 + ';what=raises', case(n), e['exc'], shape,
-                             'a plain read (full / unit slices / in-range integers, non-empty selection) raised', spec=shape)
+                             'a read that selects at least one element raised', spec=shape)
             else:
+                # empty answers: ConcatenatedLazyIndexer raises for empty heads / tails (open C05 findings F10, F10b)
+                # and H5DataV1 cannot stack zero products; no element is obtained, the property is silent
                 ctx.count('unanswered')
-                ctx.count('unanswered=%s/%s' % (fmt, type_of_exc(e['exc'])))
+                ctx.count('unanswered_empty=%s/%s' % (fmt, type_of_exc(e['exc'])))
             if note:
                 ctx.note_case((hkey, n), nontrivial=False)
             continue
@@ -649,6 +672,8 @@ def run_witness(ctx, w):
                         py.append(slice(None)); wire.append([1, [], [], []]); forms.append('full')
                     elif isinstance(ix, int):
                         py.append(ix); wire.append([0, ix]); forms.append('int')
+                    elif 'list' in ix:
+                        py.append(list(ix['list'])); wire.append([3, list(ix['list'])]); forms.append('list(sorted)')
                     else:
                         a, b, c = ix['slice']
                         py.append(slice(a, b, c)); wire.append([1, c02._opt(a), c02._opt(b), c02._opt(c)]); forms.append('slice')
@@ -676,8 +701,8 @@ def open_witness(ctx, w):
 
 def fixture_plan(ctx):
     """(format, number of data sets, histories per data set)."""
-    nf = ctx.scale(2, 8)
-    nh = ctx.scale(14, 40)
+    nf = ctx.scale(4, 12)
+    nh = ctx.scale(18, 60)
     return [(fmt, nf, nh) for fmt in FMTS]
 
 
@@ -711,6 +736,7 @@ def run(ctx):
             finally:
                 fx.close()
     ctx.extra['unanswered_reads'] = ctx.dist.get('unanswered', 0)
+    ctx.extra['observation_models_skipped'] = len(SKIPPED)
     if ctx.tier == 'thorough':
         from vh import core
         with core.BuildLock():
